@@ -11,6 +11,7 @@
   happens-before relation above, not Go's formal memory model; the race-detector rig (correspondence)
   observes only the schedules that occur.
 -/
+import BtcVerif.Props.GuardPins.P_rpc
 import BtcVerif.Proofs.HB
 import BtcVerif.Gen.AccessTable
 import BtcVerif.Model.RpcIds
